@@ -130,7 +130,17 @@ class Lemma:
         except Unsupported as e:
             res.unsupported.append(str(e))
             states = []
+        from .state import Obligation
+        import z3 as _z3
         for st in states:
+            if st.obligations:
+                # vacuity guard: the hypotheses of this case must not be contradictory
+                first = st.obligations[0]
+                cov = Obligation("%s.hypotheses-satisfiable" % first.name, first.pc, _z3.BoolVal(True), "cover")
+                cov.expect_sat = True
+                cov.fullname = "lemma:%s/%s.hypotheses-satisfiable" % (self.name, first.name)
+                cov.unit = self
+                res.obligations.append(cov)
             for ob in st.obligations:
                 ob.fullname = "lemma:%s/%s" % (self.name, ob.name)
                 ob.unit = self
